@@ -53,7 +53,7 @@ def main(argv):
                     p = json.loads(line)
                     if p["id"] == prop:
                         files = [f[len("src/skmatter/"):] for f in p["anchors"]["files"] if f.startswith("src/skmatter/")]
-            limit = int(os.environ.get("VERIF_TWINS_PER_FILE", "40" if prop in ("C09", "C13") else "80"))
+            limit = int(os.environ.get("VERIF_TWINS_PER_FILE", {"C09": "8", "C13": "25", "C01": "45", "C08": "50"}.get(prop, "80")))
             res = twins.battery(prop, files, ctx.P.root, limit_per_file=limit)
             ctx.extra_coverage = {"twins": res}
             print(f"[{prop}] twin battery: {res['broken_total']} broken twins -> {res['broken_killed']} reported as VIOLATION, {res['broken_analysis_error']} as ANALYSIS-ERROR, {res['broken_survived']} silent (equivalent or outside the claimed clauses); {res['benign_total']} benign twins -> {len(res['benign_false_alarms'])} false alarms")
